@@ -52,11 +52,17 @@ def wdel (w : World) (k : Key) : World := w.filter (fun p => p.1 != k)
 inductive Write where
   | set (k : Key) (v : Val)
   | del (k : Key)
+  | fail (k : Key)      -- an element that fails when applied (add-tag on a missing feature `k`, an invalid feature)
   deriving DecidableEq, Repr, Hashable
 
 def Write.key : Write → Key
   | .set k _ => k
   | .del k => k
+  | .fail k => k
+
+def Write.isFail : Write → Bool
+  | .fail _ => true
+  | _ => false
 
 /-- `guard = some (k, true)`: only if `k` is present in the world read; `some (k, false)`: only if absent. -/
 structure Rule where
@@ -77,8 +83,16 @@ def evalRules (w : World) (rs : List Rule) : List Write :=
 def applyWrite (w : World) : Write → World
   | .set k v => wset w k v
   | .del k => wdel w k
+  | .fail _ => w
 
-def applyWrites (w : World) (ws : List Write) : World := ws.foldl applyWrite w
+/-- `Change.Apply`: the elements in order, stopping at the first one that fails (what was applied stays) -/
+def applyWrites (w : World) : List Write → World
+  | [] => w
+  | .fail _ :: _ => w
+  | wr :: rest => applyWrites (applyWrite w wr) rest
+
+/-- `Apply` returns an error -/
+def applyFails (ws : List Write) : Bool := ws.any Write.isFail
 
 inductive Req where
   | query (wid : Nat)
@@ -243,6 +257,21 @@ def clientStep (pref : Bool) (s : State) (i : Nat) (c : Client) : List State :=
 
 /-- all enabled successors -/
 def step (pref : Bool) (s : State) : List State := forWorkers s.clients (clientStep pref s)
+
+/-- A variant of the code in which the error of `apply` is looked at BEFORE the read lock is taken again:
+
+    s.lock.Unlock(); if err != nil { return nil, err }; s.lock.RLock()
+
+so a change that fails while being applied goes from `Unlock` straight to the deferred `RUnlock`. (The order in
+`service.go` is `Unlock(); RLock(); if err != nil { return }`: there the failing path takes exactly the lock
+steps of the succeeding one, which is what `clientStep` models.) -/
+def clientStepEarlyReturn (pref : Bool) (s : State) (i : Nat) (c : Client) : List State :=
+  match c.pc with
+  | .wunlock =>
+    [setClient { s with writer := false } i { c with pc := if applyFails c.change then .finalRUnlock else .rlock2 }]
+  | _ => clientStep pref s i c
+
+def stepEarlyReturn (pref : Bool) (s : State) : List State := forWorkers s.clients (clientStepEarlyReturn pref s)
 
 def terminal (s : State) : Bool := s.clients.all (fun c => c.pc == Pc.done)
 
